@@ -221,7 +221,8 @@ theorem i_add_sub_of_int (W : Nat) (hW : 1 ≤ W) (x y : Int) (form : Nat) :
     SRepr.ofInt_value W hW, SRepr.ofInt_value W hW]
   exact ⟨rfl, rfl⟩
 
-/-- exactly what the driver evaluates for `u.add` / `u.sub`: for all naturals -/
+/-- `u.add` / `u.sub` through the hand-written dispatch with its `form` argument, for all naturals (the driver runs the
+    REGENERATED four-form dispatch, proved equal to this one and exact in `Props/C01Dispatch.lean`) -/
 theorem u_add_sub_of_nat (W : Nat) (hW : 1 ≤ W) (x y : Nat) (form : Nat) (refVal : Bool) :
     ((ofNat W x).add W (ofNat W y) form).value W = x + y ∧
     (y ≤ x → ∃ r, (ofNat W x).sub W (ofNat W y) refVal = .ok r ∧ r.value W = x - y) ∧
@@ -654,7 +655,7 @@ theorem toom3_division_steps_exact (W : Nat) (hW : 4 ≤ W) (rec : MulKernel)
   toom3_division_steps W hW rec hrec a b hab hn ha hb
 
 /-- **UBig::pow through the mirrored C09 kernels** (`trailing_zeros`, `TypedReprRef >> usize`,
-    `TypedRepr << usize`; this is what the driver runs): the exact power, canonical; the documented allocation
+    `TypedRepr << usize`; the driver runs this plus the `Buffer::allocate` checks, `Props/C01Dispatch.u_pow_guarded_iff`): the exact power, canonical; the documented allocation
     panic exactly when `exp * shift` does not fit `usize` -/
 theorem u_pow_kernels_exact (W : Nat) (hW : 4 ≤ W) (a : TRepr) (exp : Nat) (ha : a.Canon W) :
     (powShiftOverflows (a.value W) exp = true → ubigPowKernels W a exp = .error .allocTooMuch) ∧
@@ -712,7 +713,8 @@ theorem repr_pow_buffers_exact (W : Nat) (hW : 4 ≤ W) (a : TRepr) (exp : Nat) 
   have h := TRepr.pow_spec W hW a exp ha
   exact ⟨a.pow W exp, TRepr.powBuf_eq W hW a exp ha, h.1, h.2⟩
 
-/-- **`UBig::pow` / `IBig::pow` exactly as the driver runs them** (mirrored C09 kernels for `trailing_zeros`,
+/-- **`UBig::pow` / `IBig::pow` with real buffers** (the driver runs these plus the MAX_CAPACITY checks of
+    `Buffer::allocate`, see `Props/C01Dispatch.u_pow_guarded_iff`; mirrored C09 kernels for `trailing_zeros`,
     `>>`, `<<`; buffers for the word / double-word bases): the exact power, canonical; the documented
     allocation panic exactly when `exp * shift` does not fit `usize` -/
 theorem u_pow_full_exact (W : Nat) (hW : 4 ≤ W) (a : TRepr) (exp : Nat) (ha : a.Canon W) :
@@ -807,7 +809,7 @@ theorem pow_of_nat_int (W : Nat) (hW : 4 ≤ W) (x : Nat) (z : Int) (n : Nat) :
     rw [(ibigPow_spec W hW _ n (SRepr.ofInt_wf W (by omega) z)).1, SRepr.ofInt_value W (by omega)]
   · intro h; simp [ibigPowChecked, vz, h]
 
-/-- **`u.pow` / `i.pow` exactly as the driver evaluates them** (`ubigPowFull` / `ibigPowFull` on `ofNat` / `ofInt`
+/-- **`u.pow` / `i.pow` as the driver evaluates them up to the `Buffer::allocate` checks** (`ubigPowFull` / `ibigPowFull` on `ofNat` / `ofInt`
     inputs): the exact power whenever `exp * shift` fits `usize`, the documented allocation panic otherwise -/
 theorem pow_full_of_nat_int (W : Nat) (hW : 4 ≤ W) (x : Nat) (z : Int) (n : Nat) :
     (powShiftOverflows x n = false → ∃ r, ubigPowFull W (ofNat W x) n = .ok r ∧ r.value W = x ^ n) ∧
